@@ -1,9 +1,160 @@
 import ShpanVerif.Util.Parse
-/- Driver handler for C09 (stub: replaced when the property's model lands). -/
+import ShpanVerif.Model.Join
+import ShpanVerif.Model.JoinSpec
+/-
+Driver handler for C09.
+
+case := "<variant> | <in> | <in> ..."      in := "-" | "key:tag,key:tag,..."
+variant := j2i | j2l                 JoinSortedStreams / LeftJoinSortedStreams            (exactly two inputs)
+         | jni | jnl | jnf           Join/LeftJoin/FullJoinMultipleSortedStreams
+         | tsi | tsl | tsf           timeseries.Inner/Left/FullJoinStreams (timestamp = time.Unix(key,0), value = tag)
+         | dsi:W | dsl:W | dsf:W     report.JoinDatasource inner/left/full; W = "w0,w1,.." fields per source;
+                                     the row of element (key,tag) of a source of width w is [8*tag, 8*tag+1, .., 8*tag+w-1]
+obs := "ok <rows>" | "err <class> <rows delivered before the error>"       rows := "-" | row;row;...
+row := slot+slot(+slot..)            slot := key:tag | _                                     (j2*, jn*)
+     | stamp@tag+_+tag               (ts*)          | stamp@c,c,n,c   (ds*, n = nil)
+
+Spec verdict: when the inputs satisfy the property's sortedness hypotheses the observation must be exactly
+"ok" + the nested-loop specification's rows; otherwise the property says nothing (verdict true) but the model
+must still agree with the code.
+-/
 namespace ShpanVerif.Drive.C09
+open ShpanVerif.Util ShpanVerif.Model.Join ShpanVerif.Model.JoinSpec
+
+abbrev Elem := Int × Nat
+
+def ekey : Elem → Int := fun e => e.1
+
+def parseElem (s : String) : Option Elem :=
+  match s.splitOn ":" with
+  | [k, t] => do let k ← k.toInt?; let t ← t.toNat?; pure (k, t)
+  | _ => none
+
+def parseElems (s : String) : Option (List Elem) :=
+  if s == "-" then some [] else (s.splitOn ",").mapM parseElem
+
+def fmtElem (e : Elem) : String := s!"{e.1}:{e.2}"
+def fmtSlot : Option Elem → String
+  | some e => fmtElem e
+  | none => "_"
+def fmtTag : Option Nat → String
+  | some t => toString t
+  | none => "_"
+def fmtCell : Cell → String
+  | some c => toString c
+  | none => "n"
+
+def fmtRows (rows : List String) : String := if rows.isEmpty then "-" else ";".intercalate rows
+
+def fmtErr : JErr → String
+  | .leftUnsorted => "left-unsorted"
+  | .rightUnsorted => "right-unsorted"
+  | .streamUnsorted i => s!"stream-unsorted:{i}"
+  | .fuel => "model-fuel"
+
+def fmtOut (o : Out String) : String :=
+  match o.2 with
+  | none => "ok " ++ fmtRows o.1
+  | some e => "err " ++ fmtErr e ++ " " ++ fmtRows o.1
+
+def mapOut {ρ : Type} (f : ρ → String) (o : Out ρ) : Out String := (o.1.map f, o.2)
+
+def plus (l : List String) : String := "+".intercalate l
+
+/-- Row of cells of element `(key, tag)` in a source of width `w`. -/
+def cellsOf (w : Nat) (e : Elem) : TsRec (List Cell) :=
+  (e.1, (List.range w).map (fun j => some (Int.ofNat (8 * e.2 + j))))
+
+def fmtStamped (stamp : Int) (body : String) : String := s!"{stamp}@{body}"
+def fmtCells (cs : List Cell) : String := ",".intercalate (cs.map fmtCell)
+
+/-- Specification-side padding of a joined datasource row: present side = its cells, absent side = `w` nils. -/
+def specCells (widths : List Nat) (slots : List (Option Elem)) : List Cell :=
+  ((widths.zip slots).map (fun p => match p.2 with
+                                    | some e => (cellsOf p.1 e).2
+                                    | none => List.replicate p.1 none)).flatten
+
+structure Case where
+  variant : String
+  widths : List Nat
+  ins : List (List Elem)
+
+def parseCase (c : String) : Option Case :=
+  match splitAt "|" (words c) with
+  | [v] :: ins => do
+    let ins ← ins.mapM (fun ts => match ts with | [t] => parseElems t | _ => none)
+    match v.splitOn ":" with
+    | [name] => pure ⟨name, [], ins⟩
+    | [name, w] => do
+      let ws ← parseNatList w
+      if ws.length == ins.length then pure ⟨name, ws, ins⟩ else none
+    | _ => none
+  | _ => none
+
+/-- Model output in the observation's text format. -/
+def runModel (c : Case) : Option String :=
+  match c.variant, c.ins with
+  | "j2i", [l, r] => some (fmtOut (mapOut (fun p => plus [fmtElem p.1, fmtElem p.2]) (joinSorted ekey ekey l r)))
+  | "j2l", [l, r] => some (fmtOut (mapOut (fun p => plus [fmtElem p.1, fmtSlot p.2]) (leftJoinSorted ekey ekey l r)))
+  | "jni", ins => some (fmtOut (mapOut (fun row => plus (row.map fmtElem)) (joinMultiple ekey ins)))
+  | "jnl", ins => some (fmtOut (mapOut (fun row => plus (fmtElem row.1 :: row.2.map fmtSlot)) (leftJoinMultiple ekey ins)))
+  | "jnf", ins => some (fmtOut (mapOut (fun row => plus (row.map fmtSlot)) (fullJoinMultiple ekey ins)))
+  | "tsi", ins =>
+    some (fmtOut (mapOut (fun r => fmtStamped r.1 r.2) (tsInnerJoin (fun vs => plus (vs.map toString)) ins)))
+  | "tsl", ins =>
+    some (fmtOut (mapOut (fun r => fmtStamped r.1 r.2)
+      (tsLeftJoin (fun (l : Nat) os => plus (toString l :: os.map fmtTag)) ins)))
+  | "tsf", ins =>
+    some (fmtOut (mapOut (fun r => fmtStamped r.1 r.2) (tsFullJoin (fun vs => plus (vs.map fmtTag)) ins)))
+  | v, ins =>
+    let jt : Option JoinType := if v == "dsi" then some .inner else if v == "dsl" then some .left
+      else if v == "dsf" then some .full else none
+    jt.map fun jt =>
+      let srcs := (c.widths.zip ins).map (fun p => p.2.map (cellsOf p.1))
+      fmtOut (mapOut (fun r => fmtStamped r.1 (fmtCells r.2)) (dsJoin jt c.widths srcs))
+
+/-- Do the inputs satisfy the sortedness hypotheses under which the property speaks? -/
+def inDomain (c : Case) : Bool :=
+  match c.variant, c.ins with
+  | "j2i", [l, r] => isNonDec ekey l && isStrictInc ekey r
+  | "j2l", [l, r] => isNonDec ekey l && isStrictInc ekey r
+  | v, ins =>
+    if v == "jnl" || v == "tsl" || v == "dsl" then ins.all (isNonDec ekey)   -- what `C09_joinN_left` needs
+    else ins.all (isStrictInc ekey)
+
+/-- Expected rows by the list-level specification (never runs the operational model). -/
+def specRows (c : Case) : Option (List String) :=
+  match c.variant, c.ins with
+  | "j2i", [l, r] => some ((innerJoin2 ekey ekey l r).map (fun p => plus [fmtElem p.1, fmtElem p.2]))
+  | "j2l", [l, r] => some ((leftJoin2 ekey ekey l r).map (fun p => plus [fmtElem p.1, fmtSlot p.2]))
+  | "jni", ins => some ((innerJoinN ekey ins).map (fun row => plus (row.map fmtElem)))
+  | "jnl", ins => some ((leftJoinN ekey ins).map (fun row => plus (fmtElem row.1 :: row.2.map fmtSlot)))
+  | "jnf", ins => some ((fullJoinN ekey ins).map (fun row => plus (row.map fmtSlot)))
+  -- wrappers: the row of key k is stamped with k
+  | "tsi", ins => some ((innerJoinN ekey ins).map (fun row =>
+      fmtStamped ((row.head?.map ekey).getD 0) (plus (row.map (fun e => toString e.2)))))
+  | "tsl", ins => some ((leftJoinN ekey ins).map (fun row =>
+      fmtStamped row.1.1 (plus (toString row.1.2 :: row.2.map (fun o => fmtTag (o.map (fun e => e.2)))))))
+  | "tsf", ins => some ((fullJoinNK ekey ins).map (fun p =>
+      fmtStamped p.1 (plus (p.2.map (fun o => fmtTag (o.map (fun e => e.2)))))))
+  | "dsi", ins => some ((innerJoinN ekey ins).map (fun row =>
+      fmtStamped ((row.head?.map ekey).getD 0) (fmtCells (specCells c.widths (row.map some)))))
+  | "dsl", ins => some ((leftJoinN ekey ins).map (fun row =>
+      fmtStamped row.1.1 (fmtCells (specCells c.widths (some row.1 :: row.2)))))
+  | "dsf", ins => some ((fullJoinNK ekey ins).map (fun p => fmtStamped p.1 (fmtCells (specCells c.widths p.2))))
+  | _, _ => none
 
 /-- returns (model output, spec verdict on the observation, reason) -/
-def handle (_c _obs : String) : String × Bool × String :=
-  ("unimplemented", false, "no model yet")
+def handle (c obs : String) : String × Bool × String :=
+  match parseCase c with
+  | none => ("bad-case", false, "unparsable case")
+  | some cs =>
+    match runModel cs, specRows cs with
+    | some model, some rows =>
+      if inDomain cs then
+        let want := "ok " ++ fmtRows rows
+        (model, obs == want, if obs == want then "" else s!"sorted inputs: want {want}")
+      else (model, true, "outside the property's domain (unsorted input)")
+    | _, _ => ("bad-case", false, "unknown variant / wrong number of inputs")
 
 end ShpanVerif.Drive.C09
